@@ -28,6 +28,65 @@ def work(task):
 
 
 NESTED = {'quick': (7, 8), 'thorough': (7, 9)}
+TWIN_MAX = {'quick': 4, 'thorough': 5}
+
+
+def twin_work(task):
+    """exact twins: two transitions of one state that are equal in every field (two Transition objects, or the
+    same entry written twice in YAML).  They are two transitions: when they are enabled the step must be refused."""
+    from mc import probes
+    from mc.chartgen import Tree, wf_pair, build_api, build_yaml
+    from sismic.interpreter import Interpreter
+    from sismic.exceptions import NonDeterminismError
+    tree = task
+    base = flatten(tree, 'asc', 0)
+    T = Tree(base)
+    res = {'states': 0, 'transitions': 0, 'outcomes': {}, 'violations': [], 'nviol': 0, 'desc': None, 'task': None}
+    for s in T.order:
+        for t in [None] + list(T.order):
+            if not wf_pair(T, s, t):
+                continue
+            for builder in (build_api, build_yaml):
+                spec = dict(base, transitions=[
+                    {'tid': i, 'source': s, 'target': t, 'event': 'e', 'guard': None, 'action': "P('ac', 0)",
+                     'priority': 0} for i in (0, 1)])
+                try:
+                    sc, _ = builder(spec)
+                    it = Interpreter(sc, initial_context=probes.CONTEXT())
+                    it.execute_once()
+                    if s not in it.configuration:
+                        continue
+                    conf = list(it.configuration)
+                    n_tr = len(sc.transitions_from(s))
+                    outcomes = []
+                    for attempt in (1, 2):
+                        it.queue('e') if attempt == 1 else None
+                        probes.reset()
+                        try:
+                            outcomes.append(('step', it.execute_once()))
+                        except NonDeterminismError:
+                            outcomes.append(('NonDeterminismError', None))
+                    res['transitions'] += 1
+                    problem = None
+                    if n_tr != 2:
+                        problem = 'the statechart holds %d transitions from %s, two were declared' % (n_tr, s)
+                    elif [o[0] for o in outcomes] != ['NonDeterminismError'] * 2:
+                        problem = 'two equal transitions %s -> %s are enabled: expected NonDeterminismError twice (the ' \
+                                  'event stays pending), got %s' % (s, t, [o[0] if o[1] is None else str(o[1]) for o in outcomes])
+                    elif list(it.configuration) != conf or probes.LOG:
+                        problem = 'the refused step changed something: configuration %s, code %s' % (it.configuration, probes.LOG)
+                except Exception as e:
+                    problem = 'unexpected %s: %s' % (type(e).__name__, str(e)[:100])
+                if problem:
+                    res['nviol'] += 1
+                    if len(res['violations']) < 4:
+                        res['violations'].append({'category': 'twins', 'hist': None, 'op': ['twins', s, t, builder.__name__],
+                                                  'detail': problem})
+    res['desc'] = describe(base) + ' [exact twins]'
+    res['task'] = ('twins', tree)
+    res['outcomes'] = {'exact twins refused': res['transitions'] - res['nviol']}
+    return res
+
 
 
 def run(tier, seed):
@@ -49,6 +108,7 @@ def run(tier, seed):
                     tasks.append((tree, scheme, ivar, k, twin))
     tasks.sort(key=lambda t: -len(repr(t[0])) * (2 if t[4] else 1) * (3 if t[3] == 3 else 1))
     results = harness.pmap(work, tasks)
+    results += harness.pmap(twin_work, list(skeletons(2, TWIN_MAX[tier], history=False, final=False)))
     agg = harness.Agg()
     viols = []
     for r in sorted(results, key=lambda r: len(r['desc'])):
@@ -83,6 +143,10 @@ def run(tier, seed):
 def replay(data):
     from mc import probes
     task = schemes._tupled(data['task'])
+    if task[0] == 'twins':
+        r = twin_work(task[1])
+        print(r['desc'], r['violations'] or 'no problem')
+        return 0
     spec = make_spec(task)
     R = engine.Runner(spec, 'moved' if task[4] == 'moved' else 'api')
     it = R.new_interpreter()
